@@ -327,6 +327,24 @@ def charclass_program(rng):
     return shadowed(fns, calls)
 
 
+def array_ops_program(rng):
+    """array builtins whose argument conventions the engines must share (slice by start and length, remove, pop, set) and a
+    for loop whose range expression reads a variable the body changes (the range is evaluated once)"""
+    n = rng.randint(4, 9)
+    fns = [("slsum", "fn slsum(st: int, ln: int) -> int {\n    let a: array<int> = [%s]\n    let b: array<int> = (array_slice a st ln)\n    let mut t: int = (* 1000 (array_length b))\n    let mut i: int = 0\n    while (< i (array_length b)) {\n        set t (+ t (at b i))\n        set i (+ i 1)\n    }\n    (println b)\n    return t\n}\n"
+                     % ", ".join(str(10 + k) for k in range(n))),
+           ("grow", "fn grow(n: int) -> int {\n    let mut k: int = n\n    let mut c: int = 0\n    for i in (range 0 k) {\n        set k (+ k 1)\n        set c (+ c 1)\n        if (> c 60) { break }\n    }\n    return (+ (* c 100) k)\n}\n"),
+           ("edit", "fn edit(i: int) -> int {\n    let mut a: array<int> = [1, 2, 3, 4, 5]\n    set a (array_remove_at a i)\n    (array_set a 0 (+ (at a 0) 40))\n    let last: int = (array_pop a)\n    (println a)\n    return (+ last (array_length a))\n}\n")]
+    calls = []
+    for st, ln in [(0, 0), (0, n), (1, 3), (n - 1, 1), (2, n - 2), (1, 1), (0, 1)] + [(rng.randrange(n), 1)]:
+        calls.append(("slsum", "(slsum %d %d)" % (st, ln)))
+    for k in (0, 1, 4):
+        calls.append(("grow", "(grow %d)" % k))
+    for i in (0, 2, 4):
+        calls.append(("edit", "(edit %d)" % i))
+    return shadowed(fns, calls)
+
+
 def struct_order_program(rng):
     """struct definitions in an order that is not the dependency order, by-value nesting, several fields of the same struct type"""
     defs = ["struct Pt { x: int, y: int }",
